@@ -60,8 +60,10 @@ theorem K.resume_spec (k : K) (m : Mode) (s : Sig) (b : Bool) :
         | sysc => simp; split <;> simp [K.fresh, h2]
         | cont =>
           simp only []
-          have := K.runMain_spec b { k2 with frames := [] } k2.script
-          simpa [h2] using this
+          split
+          · simp [h2]
+          · have := K.runMain_spec b { k2 with frames := [] } k2.script
+            simpa [h2] using this
 
 theorem K.runMain_stop (b : Bool) (k : K) (l : List PEv) :
     (∀ a, (K.runMain b k l).2 = .sigStop a → (K.runMain b k l).1.stop = .sig a) ∧
@@ -98,8 +100,10 @@ theorem K.resume_stop (k : K) (m : Mode) (s : Sig) (b : Bool) :
         | sysc => simp; split <;> simp
         | cont =>
           simp only []
-          have := K.runMain_stop b { k2 with frames := [] } k2.script
-          exact ⟨this.1, fun _ => Or.inr (by trivial)⟩
+          split
+          · simp
+          · have := K.runMain_stop b { k2 with frames := [] } k2.script
+            exact ⟨this.1, fun _ => Or.inr (by trivial)⟩
 
 theorem K.send_fields (k : K) (p : Bool) (s : Sig) :
     (k.send p s).delivered = k.delivered ∧ (k.send p s).arrived = k.arrived ∧ (k.send p s).stop = k.stop
@@ -167,266 +171,511 @@ theorem D.kp_counts (d : D) (m : Mode) (s x : Sig) :
       have e : d.kp m s = d.kres m s := D.kp_other (by simp [hw])
       exact ⟨0, by omega, by simp [e, hw], by simp [e, harr], by simp [e]⟩
 
-/-! ### every command is a sequence of atomic steps: a predicate closed under them holds at every prompt -/
+@[simp] theorem D.kres_piled (d : D) (m : Mode) (s : Sig) : (d.kres m s).1.piled = d.piled := rfl
+@[simp] theorem D.kres_dead (d : D) (m : Mode) (s : Sig) : (d.kres m s).1.dead = d.dead := rfl
+@[simp] theorem D.push_dead (d : D) (s : Sig) : (d.push s).dead = d.dead := by unfold D.push; split <;> rfl
+theorem D.push_piled (d : D) (s : Sig) :
+    (d.push s).piled = if s ∈ transparent then d.piled else (d.piled || !d.queue.isEmpty) := by
+  unfold D.push; split <;> rfl
 
-@[simp] theorem D.kres_stepArr (d : D) (m : Mode) (s : Sig) : (d.kres m s).1.stepArr = d.stepArr := rfl
-@[simp] theorem D.push_stepArr (d : D) (s : Sig) : (d.push s).stepArr = d.stepArr := by unfold D.push; split <;> rfl
-@[simp] theorem D.kp_stepArr (d : D) (m : Mode) (s : Sig) : (d.kp m s).1.stepArr = d.stepArr := by
+@[simp] theorem D.kp_reported (d : D) (m : Mode) (s : Sig) : (d.kp m s).1.reported = d.reported := by
   cases hw : (d.k.resume m s d.bpOn).2 with
   | sigStop a => rw [D.kp_sig hw]; simp
   | _ => rw [D.kp_other (by simp [hw])]; simp
 
+@[simp] theorem D.kp_bpOn (d : D) (m : Mode) (s : Sig) : (d.kp m s).1.bpOn = d.bpOn := by
+  cases hw : (d.k.resume m s d.bpOn).2 with
+  | sigStop a => rw [D.kp_sig hw]; simp
+  | _ => rw [D.kp_other (by simp [hw])]; simp
+
+@[simp] theorem D.kp_dead (d : D) (m : Mode) (s : Sig) : (d.kp m s).1.dead = d.dead := by
+  cases hw : (d.k.resume m s d.bpOn).2 with
+  | sigStop a => rw [D.kp_sig hw]; simp
+  | _ => rw [D.kp_other (by simp [hw])]; simp
+
+theorem D.kp_queue_sig {d : D} {m : Mode} {s a : Sig} (h : (d.kp m s).2 = .sigStop a) :
+    (d.kp m s).1.queue = if a ∈ transparent then d.queue else d.queue ++ [a] := by
+  have hw : (d.k.resume m s d.bpOn).2 = .sigStop a := by rw [← D.kp_ev]; exact h
+  rw [D.kp_sig hw]; simp [D.push_queue]
+
+theorem D.kp_queue_other {d : D} {m : Mode} {s : Sig} (h : ∀ a, (d.kp m s).2 ≠ .sigStop a) :
+    (d.kp m s).1.queue = d.queue := by
+  have hw : ∀ a, (d.k.resume m s d.bpOn).2 ≠ .sigStop a := by intro a; rw [← D.kp_ev]; exact h a
+  rw [D.kp_other hw]; simp
+
+/-- nothing piles up when the step starts with an empty queue -/
+theorem D.kp_piled_nil {d : D} (m : Mode) (s : Sig) (hq : d.queue = []) : (d.kp m s).1.piled = d.piled := by
+  cases hw : (d.k.resume m s d.bpOn).2 with
+  | sigStop a => rw [D.kp_sig hw]; simp [D.push_piled, hq]
+  | _ => rw [D.kp_other (by simp [hw])]; simp
+
+/-- no pile-up after the step: none before, and the queue was empty or the reported signal is not queued -/
+theorem D.kp_piled_false {d : D} {m : Mode} {s : Sig} (h : (d.kp m s).1.piled = false) :
+    d.piled = false ∧ (d.queue = [] ∨ ∀ a, (d.kp m s).2 = .sigStop a → a ∈ transparent) := by
+  cases hw : (d.k.resume m s d.bpOn).2 with
+  | sigStop a =>
+    rw [D.kp_sig hw] at h ⊢
+    simp only [D.push_piled, D.kres_piled, D.kres_queue] at h
+    by_cases ht : a ∈ transparent
+    · simp only [ht, if_true] at h
+      exact ⟨h, Or.inr (fun a' e => by cases e; exact ht)⟩
+    · simp only [ht, if_false, Bool.or_eq_false_iff] at h
+      refine ⟨h.1, Or.inl ?_⟩
+      have := h.2
+      cases hq : d.queue with
+      | nil => rfl
+      | cons x l => simp [hq] at this
+  | _ =>
+    have hno : ∀ a, (d.k.resume m s d.bpOn).2 ≠ .sigStop a := by simp [hw]
+    rw [D.kp_other hno] at h ⊢
+    exact ⟨by simpa using h, Or.inr (fun a e => absurd e (by simp [hw]))⟩
+
+/-- the tables are disjoint: a quiet signal is always queued by `apply_new_status` -/
+theorem quiet_not_transparent : ∀ a, a ∈ quiet → a ∉ transparent := by decide
+
+/-- no quiet signal waits in the queue -/
+def NQ (q : List Sig) : Prop := ∀ x ∈ q, x ∉ quiet
+
+/-- the queue right after an atomic step that was started with no quiet signal in the queue: the signal whose
+signal-delivery-stop the step has reported is its last entry (unless it is transparent) -/
+def W (d : D) : WEv → Prop
+  | .sigStop a => ∃ q0, NQ q0 ∧ (d.queue = q0 ++ [a] ∨ (a ∈ transparent ∧ d.queue = q0))
+  | _ => NQ d.queue
+
+theorem D.kp_W {d : D} (m : Mode) (s : Sig) (hq : NQ d.queue) : W (d.kp m s).1 (d.kp m s).2 := by
+  cases hw : (d.kp m s).2 with
+  | sigStop a =>
+    refine ⟨d.queue, hq, ?_⟩
+    rw [D.kp_queue_sig hw]
+    by_cases ht : a ∈ transparent
+    · right; exact ⟨ht, by simp [ht]⟩
+    · left; simp [ht]
+  | _ =>
+    have := D.kp_queue_other (d := d) (m := m) (s := s) (by simp [hw])
+    simp only [W]; rw [this]; exact hq
+
+theorem D.unqueue_append (q : List Sig) (a : Sig) : D.unqueue (q ++ [a]) a = q := by simp [D.unqueue]
+
+/-! ### the conservation law -/
+
+/-- nothing queued twice, nothing owed after exit, and for every non-transparent signal
+handler runs + queued instances = signal-delivery-stops -/
+def Clean (d : D) : Prop :=
+  d.queue.length ≤ 1 ∧ (d.k.stop = .exited → d.queue = []) ∧
+  ∀ x, x ≠ 0 → x ∉ transparent → d.k.delivered.count x + d.queue.count x = d.k.arrived.count x
+
+theorem Clean.ext {d d' : D} (hk : d'.k = d.k) (hq : d'.queue = d.queue) (h : Clean d) : Clean d' := by
+  unfold Clean at *; rw [hk, hq]; exact h
+
+/-- one resume request issued with an empty queue, carrying the signal `s` that was taken off it (`s = 0`: none) -/
+theorem Clean.kpStep (d : D) (m : Mode) (s : Sig) (hq : d.queue = []) (hne : d.k.stop ≠ .exited ∨ s = 0)
+    (hc : ∀ x, x ≠ 0 → x ∉ transparent →
+      d.k.delivered.count x + (if s = 0 then 0 else if s = x then 1 else 0) = d.k.arrived.count x) :
+    Clean (d.kp m s).1 := by
+  have hst := K.resume_stop d.k m s d.bpOn
+  refine ⟨?_, ?_, ?_⟩
+  · cases hw : (d.k.resume m s d.bpOn).2 with
+    | sigStop a => rw [D.kp_sig hw]; simp [D.push_queue, hq]; split <;> simp
+    | _ => rw [D.kp_other (by simp [hw])]; simp [hq]
+  · intro hex
+    cases hw : (d.k.resume m s d.bpOn).2 with
+    | sigStop a =>
+      have := hst.1 a hw
+      rw [D.kp_k] at hex; rw [this] at hex; cases hex
+    | _ => rw [D.kp_other (by simp [hw])]; simp [hq]
+  · intro x hx0 hx
+    obtain ⟨hd, δ, _, _, ha, hqc⟩ := D.kp_counts d m s x
+    rw [hd, ha, hqc]
+    have := hc x hx0 hx
+    rcases hne with hne | hs0
+    · simp only [hne, false_or, hx, if_false, hq, List.count_nil] at *
+      split <;> simp_all <;> omega
+    · subst hs0
+      simp only [or_true, if_true, hx, if_false, hq, List.count_nil] at *
+      omega
+
+theorem Clean.kp0 {d : D} (m : Mode) (hc : Clean d) (hq : d.queue = []) : Clean (d.kp m 0).1 :=
+  Clean.kpStep d m 0 hq (Or.inr rfl) (fun x hx0 hx => by simpa [hq] using hc.2.2 x hx0 hx)
+
+/-- `PTRACE_SINGLESTEP(0)` / `PTRACE_SYSCALL(0)` of a thread that has a signal queued, when the step reports no signal
+that gets queued as well: the law is untouched (the kernel forgets the signal of the stop, the tracer still owes it) -/
+theorem Clean.kp0_keep {d : D} (m : Mode) (hc : Clean d) (hm : m ≠ .cont)
+    (hno : ∀ a, (d.kp m 0).2 = .sigStop a → a ∈ transparent) : Clean (d.kp m 0).1 := by
+  have hst := K.resume_stop d.k m 0 d.bpOn
+  have hqe : (d.kp m 0).1.queue = d.queue := by
+    cases hw : (d.kp m 0).2 with
+    | sigStop a => rw [D.kp_queue_sig hw]; simp [hno a hw]
+    | _ => exact D.kp_queue_other (by simp [hw])
+  refine ⟨by rw [hqe]; exact hc.1, ?_, ?_⟩
+  · intro hex
+    rw [D.kp_k] at hex
+    rcases hst.2 hex with e | e
+    · rw [hqe]; exact hc.2.1 e
+    · exact absurd e hm
+  · intro x hx0 hx
+    obtain ⟨hd, δ, hδ, hδi, ha, _⟩ := D.kp_counts d m 0 x
+    have h0 : δ = 0 := by
+      have : δ ≠ 1 := fun e => hx (hno x (hδi.mp e))
+      omega
+    rw [hd, ha, hqe, h0]
+    simpa using hc.2.2 x hx0 hx
+
+theorem Clean.inj {d : D} (m : Mode) (s : Sig) (hc : Clean d) (hq : d.queue = [s]) :
+    Clean ({ d with queue := [] }.kp m s).1 := by
+  have hex : d.k.stop ≠ .exited := by intro e; have := hc.2.1 e; rw [hq] at this; cases this
+  refine Clean.kpStep { d with queue := [] } m s rfl (Or.inl hex) (fun x hx0 hx => ?_)
+  have := hc.2.2 x hx0 hx
+  rw [hq, List.count_singleton] at this
+  by_cases hs0 : s = 0
+  · subst hs0
+    -- signal number 0 is never queued by the model's callers, but the law still holds: nothing is injected
+    simp only [if_true]
+    have h0 : ¬ (0 : Sig) = x := fun e => hx0 e.symm
+    simp_all
+  · simp only [hs0, if_false]
+    by_cases hsx : s = x <;> simp_all
+
+theorem Clean.send {d : D} (p : Bool) (s : Sig) (hc : Clean d) : Clean { d with k := d.k.send p s } := by
+  have hs := K.send_fields d.k p s
+  unfold Clean
+  simp only [hs.1, hs.2.1, hs.2.2.1]
+  exact hc
+
+/-! ### every command is a sequence of atomic steps: a predicate closed under them holds at every prompt -/
+
 /-- closure conditions: the atomic steps the debugger model is made of -/
 structure Stable (P : D → Prop) : Prop where
-  /-- `P` only looks at the kernel state, the queue and the ghost flag -/
-  ext : ∀ d d' : D, d'.k = d.k → d'.queue = d.queue → d'.stepArr = d.stepArr → P d → P d'
-  /-- `resume` with an empty queue: `PTRACE_CONT(0)` (+ queueing of the reported signal) -/
-  kp0c : ∀ (d : D) (b : Bool), P d → d.queue = [] → P ({ d with bpOn := b }.kp .cont 0).1
+  /-- `P` only looks at the kernel state, the queue, the list of reported stops and the ghost flag -/
+  ext : ∀ d d' : D, d'.k = d.k → d'.queue = d.queue → d'.reported = d.reported → d'.piled = d.piled → P d → P d'
+  /-- `resume` with an empty queue: `PTRACE_CONT(0)`, the `waitpid` after it, the queueing of the reported signal -/
+  kp0c : ∀ (d : D), P d → d.queue = [] → P (d.kp .cont 0).1
+  /-- `single_step`: `PTRACE_SINGLESTEP(0)` or `PTRACE_SYSCALL(0)` (+ wait, + queueing), whatever is queued -/
+  kp0s : ∀ (d : D) (m : Mode), P d → m ≠ .cont → P (d.kp m 0).1
   /-- `resume`: the only queued signal is taken off the queue and injected with `PTRACE_CONT` -/
   pop : ∀ (d : D) (s : Sig), P d → d.queue = [s] → P ({ d with queue := [] }.kp .cont s).1
-  /-- `single_step`: `PTRACE_SINGLESTEP(0)` -/
-  kps0 : ∀ (d : D), P d → P (d.kps .step 0).1
-  /-- `single_step`: a quiet signal that has just been queued (or is transparent) is injected with `PTRACE_SINGLESTEP` -/
-  qstep : ∀ (d : D) (a : Sig), P d → a ∈ quiet → (a ∈ d.queue ∨ a ∈ transparent) → d.stepArr = true →
-    P (d.kps .step a).1
+  /-- `single_step`: a quiet signal that has just been queued is taken back and injected with `PTRACE_SINGLESTEP` -/
+  qstep : ∀ (d : D) (q0 : List Sig) (a : Sig), P d → a ∈ quiet → d.queue = q0 ++ [a] →
+    P ({ d with queue := q0 }.kp .step a).1
   /-- `resume` with two queued signals: the head is dropped -/
   drop : ∀ (d : D) (s s' : Sig) (rest : List Sig), P d → d.queue = s :: s' :: rest → P { d with queue := s' :: rest }
-  /-- `PTRACE_SYSCALL` without `apply_new_status` -/
-  sysc : ∀ d : D, P d → P d.ksys.1
   /-- a signal sent from outside -/
-  send : ∀ (d : D) (p : Bool) (s : Sig), P d → P { d with k := d.k.send p s }
+  send : ∀ (d : D) (p : Bool) (s : Sig), P d → d.k.stop ≠ .exited → P { d with k := d.k.send p s }
+  /-- a stop for a signal that is not quiet is handed to the user -/
+  report : ∀ (d : D) (s : Sig), P d → s ∉ quiet → P (d.report s)
 
 theorem Stable.ext' {P : D → Prop} (hP : Stable P) {d d' : D} (h : P d) (hk : d'.k = d.k) (hq : d'.queue = d.queue)
-    (hs : d'.stepArr = d.stepArr) : P d' := hP.ext d d' hk hq hs h
+    (hr : d'.reported = d.reported) (hp : d'.piled = d.piled) : P d' := hP.ext d d' hk hq hr hp h
 
-/-- the same for predicates that do not look at the ghost flag -/
-structure StableB (P : D → Prop) : Prop where
-  ext : ∀ d d' : D, d'.k = d.k → d'.queue = d.queue → P d → P d'
-  kp0 : ∀ (d : D) (m : Mode) (b : Bool), P d → P ({ d with bpOn := b }.kp m 0).1
-  pop : ∀ (d : D) (s : Sig), P d → d.queue = [s] → P ({ d with queue := [] }.kp .cont s).1
-  qstep : ∀ (d : D) (a : Sig), P d → a ∈ quiet → (a ∈ d.queue ∨ a ∈ transparent) → P (d.kp .step a).1
-  drop : ∀ (d : D) (s s' : Sig) (rest : List Sig), P d → d.queue = s :: s' :: rest → P { d with queue := s' :: rest }
-  sysc : ∀ d : D, P d → P (d.kres .sysc 0).1
-  send : ∀ (d : D) (p : Bool) (s : Sig), P d → P { d with k := d.k.send p s }
-
-theorem D.kps_sig {d : D} {m : Mode} {s a : Sig} (h : (d.kp m s).2 = .sigStop a) :
-    d.kps m s = ({ (d.kp m s).1 with stepArr := true }, .sigStop a) := by
-  simp only [D.kps, h]
-
-theorem D.kps_other {d : D} {m : Mode} {s : Sig} (h : ∀ a, (d.kp m s).2 ≠ .sigStop a) : d.kps m s = d.kp m s := by
-  simp only [D.kps]
-
-theorem D.ksys_sig {d : D} {a : Sig} (h : (d.kres .sysc 0).2 = .sigStop a) :
-    d.ksys = ({ (d.kres .sysc 0).1 with stepArr := true }, .sigStop a) := by
-  simp only [D.ksys, h]
-
-theorem D.ksys_other {d : D} (h : ∀ a, (d.kres .sysc 0).2 ≠ .sigStop a) : d.ksys = d.kres .sysc 0 := by
-  simp only [D.ksys]
-
-theorem D.kps_ev (d : D) (m : Mode) (s : Sig) : (d.kps m s).2 = (d.kp m s).2 := by
-  cases hw : (d.kp m s).2 with
-  | sigStop a => rw [D.kps_sig hw]
-  | _ => rw [D.kps_other (by simp [hw])]; exact hw
-
-theorem D.ksys_ev (d : D) : d.ksys.2 = (d.kres .sysc 0).2 := by
-  cases hw : (d.kres .sysc 0).2 with
-  | sigStop a => rw [D.ksys_sig hw]
-  | _ => rw [D.ksys_other (by intro a h; rw [hw] at h; cases h)]; exact hw
-
-theorem StableB.toStable {P : D → Prop} (h : StableB P) : Stable P where
-  ext := fun d d' hk hq _ hp => h.ext d d' hk hq hp
-  kp0c := fun d b hp _ => h.kp0 d .cont b hp
-  pop := h.pop
-  kps0 := fun d hp => by
-    have h1 : P (d.kp .step 0).1 := h.kp0 d .step d.bpOn hp
-    cases hw : (d.kp .step 0).2 with
-    | sigStop a => rw [D.kps_sig hw]; exact h.ext (d.kp .step 0).1 _ rfl rfl h1
-    | _ => rw [D.kps_other (by simp [hw])]; exact h1
-  qstep := fun d a hp ha hq _ => by
-    have h1 := h.qstep d a hp ha hq
-    cases hw : (d.kp .step a).2 with
-    | sigStop a' => rw [D.kps_sig hw]; exact h.ext (d.kp .step a).1 _ rfl rfl h1
-    | _ => rw [D.kps_other (by simp [hw])]; exact h1
-  drop := h.drop
-  sysc := fun d hp => by
-    have h1 := h.sysc d hp
-    cases hw : (d.kres .sysc 0).2 with
-    | sigStop a => rw [D.ksys_sig hw]; exact h.ext (d.kres .sysc 0).1 _ rfl rfl h1
-    | _ => rw [D.ksys_other (by intro a h; rw [hw] at h; cases h)]; exact h1
-  send := h.send
-
-theorem D.kp_queued {d : D} {m : Mode} {s a : Sig} (h : (d.kp m s).2 = .sigStop a) :
-    a ∈ (d.kp m s).1.queue ∨ a ∈ transparent := by
-  have hw : (d.k.resume m s d.bpOn).2 = .sigStop a := by rw [← D.kp_ev]; exact h
-  rw [D.kp_sig hw]
-  by_cases ht : a ∈ transparent
-  · exact Or.inr ht
-  · left; simp [D.push_queue, ht]
-
-theorem D.kps_queued {d : D} {m : Mode} {s a : Sig} (h : (d.kps m s).2 = .sigStop a) :
-    (a ∈ (d.kps m s).1.queue ∨ a ∈ transparent) ∧ (d.kps m s).1.stepArr = true := by
-  have h' : (d.kp m s).2 = .sigStop a := by rw [← D.kps_ev]; exact h
-  have hq := D.kp_queued h'
-  rw [D.kps_sig h']
-  exact ⟨hq, rfl⟩
+/-- what a loop of the tracer hands back: either the model ran out of fuel, or no quiet signal waits in the queue -/
+def Post (d : D) (fuelOut : Prop) : Prop := fuelOut ∨ NQ d.queue
 
 theorem D.ssLoop_stable {P : D → Prop} (hP : Stable P) :
-    ∀ (f ini : Nat) (d : D) (w : WEv), P d →
-      (∀ a, w = .sigStop a → (a ∈ d.queue ∨ a ∈ transparent) ∧ d.stepArr = true) →
-      P (D.ssLoop f ini d w).1 := by
+    ∀ (f ini : Nat) (d : D) (w : WEv), P d → W d w →
+      P (D.ssLoop f ini d w).1 ∧ Post (D.ssLoop f ini d w).1 ((D.ssLoop f ini d w).2 = .outOfFuel) ∧
+      ∀ s, (D.ssLoop f ini d w).2 = .sig s → s ∉ quiet := by
   intro f
   induction f with
-  | zero => intro ini d w h _; simpa [D.ssLoop] using h
+  | zero => intro ini d w h _; exact ⟨by simpa [D.ssLoop] using h, Or.inl (by simp [D.ssLoop]), by simp [D.ssLoop]⟩
   | succ f ih =>
-    intro ini d w h hq
+    intro ini d w h hw
     cases w with
     | trap =>
       simp only [D.ssLoop]
       split
-      · exact ih _ _ _ (hP.kps0 d h) (fun a ha => D.kps_queued ha)
-      · exact h
-    | trapBp => simpa [D.ssLoop] using h
+      · exact ih _ _ _ (hP.kp0s d .step h (by decide)) (D.kp_W .step 0 hw)
+      · exact ⟨h, Or.inr hw, by simp⟩
+    | trapBp => simp only [D.ssLoop]; exact ⟨h, Or.inr hw, by simp⟩
     | trap5 =>
       simp only [D.ssLoop]
-      have h1 := hP.sysc d h
+      have h1 := hP.kp0s d .sysc h (by decide)
+      have w1 := D.kp_W (d := d) .sysc 0 hw
       split
-      all_goals first
-        | exact h1
-        | exact ih _ _ _ (hP.kps0 _ h1) (fun a ha => D.kps_queued ha)
+      · rename_i e; rw [e] at w1
+        exact ih _ _ _ (hP.kp0s _ .step h1 (by decide)) (D.kp_W .step 0 w1)
+      · rename_i e; rw [e] at w1
+        exact ih _ _ _ (hP.kp0s _ .step h1 (by decide)) (D.kp_W .step 0 w1)
+      · rename_i e; rw [e] at w1
+        exact ih _ _ _ (hP.kp0s _ .step h1 (by decide)) (D.kp_W .step 0 w1)
+      · rename_i s e; rw [e] at w1
+        exact ih _ _ _ h1 w1
+      · rename_i n1 n2 n3 n4
+        refine ⟨h1, Or.inr ?_, by simp⟩
+        cases hw2 : (d.kp .sysc 0).2 with
+        | sigStop a => exact absurd hw2 (n4 a)
+        | trap => exact absurd hw2 n1
+        | trap5 => exact absurd hw2 n2
+        | trapBp => exact absurd hw2 n3
+        | exitEv => rw [hw2] at w1; exact w1
+        | unmodelled => rw [hw2] at w1; exact w1
     | sigStop s =>
       simp only [D.ssLoop]
+      obtain ⟨q0, hq0, hq⟩ := hw
       split
       · rename_i hs
-        have h1 := hP.qstep d s h hs (hq s rfl).1 (hq s rfl).2
-        exact ih _ _ _ h1 (fun a ha => D.kps_queued ha)
-      · exact h
-    | exitEv => simpa [D.ssLoop] using h
-    | unmodelled => simpa [D.ssLoop] using h
+        have hq : d.queue = q0 ++ [s] := by
+          rcases hq with hq | ⟨ht, _⟩
+          · exact hq
+          · exact absurd ht (quiet_not_transparent s hs)
+        rw [hq, D.unqueue_append]
+        exact ih _ _ _ (hP.qstep d q0 s h hs hq) (D.kp_W .step s hq0)
+      · rename_i hs
+        refine ⟨h, Or.inr ?_, fun s' e => by cases e; exact hs⟩
+        rcases hq with hq | ⟨_, hq⟩
+        · rw [hq]; intro x hx
+          simp only [List.mem_append, List.mem_singleton] at hx
+          rcases hx with hx | hx
+          · exact hq0 x hx
+          · rw [hx]; exact hs
+        · rw [hq]; exact hq0
+    | exitEv => simp only [D.ssLoop]; exact ⟨h, Or.inr hw, by simp⟩
+    | unmodelled => simp only [D.ssLoop]; exact ⟨h, Or.inr hw, by simp⟩
 
-theorem D.singleStep_stable {P : D → Prop} (hP : Stable P) (d : D) (h : P d) : P d.singleStep.1 := by
+theorem D.singleStep_stable {P : D → Prop} (hP : Stable P) (d : D) (h : P d) (hq : NQ d.queue) :
+    P d.singleStep.1 ∧ Post d.singleStep.1 (d.singleStep.2 = .outOfFuel) ∧ ∀ s, d.singleStep.2 = .sig s → s ∉ quiet := by
   unfold D.singleStep
-  exact D.ssLoop_stable hP _ _ _ _ (hP.kps0 d h) (fun a ha => D.kps_queued ha)
+  exact D.ssLoop_stable hP _ _ _ _ (hP.kp0s d .step h (by decide)) (D.kp_W .step 0 hq)
+
+theorem NQ_nil : NQ [] := by intro x hx; cases hx
 
 theorem D.resume_stable {P : D → Prop} (hP : Stable P) :
-    ∀ (f : Nat) (d : D), P d → P (D.resume f d).1 := by
+    ∀ (f : Nat) (d : D), P d → (NQ d.queue ∨ d.queue.length ≤ 1) →
+      P (D.resume f d).1 ∧ Post (D.resume f d).1 ((D.resume f d).2 = .outOfFuel) ∧
+      ∀ s, (D.resume f d).2 = .sig s → s ∉ quiet := by
   intro f
   induction f with
-  | zero => intro d h; simpa [D.resume] using h
+  | zero => intro d h _; exact ⟨by simpa [D.resume] using h, Or.inl (by simp [D.resume]), by simp [D.resume]⟩
   | succ f ih =>
-    intro d h
+    intro d h hq
     unfold D.resume
     split
-    · rename_i s s' rest hq
-      exact hP.drop d s s' rest h hq
-    · rename_i q hne
+    · rename_i s s' rest hqq
+      have hn : NQ (s :: s' :: rest) := by
+        rcases hq with hq | hq
+        · rw [hqq] at hq; exact hq
+        · rw [hqq] at hq; simp at hq
+      have hs' : s' ∉ quiet := hn s' (by simp)
+      refine ⟨hP.drop d s s' rest h hqq, Or.inr ?_, fun x e => by cases e; exact hs'⟩
+      intro x hx; exact hn x (List.mem_cons_of_mem _ hx)
+    · rename_i hne
+      -- the queue holds at most one signal: it is taken off and injected
+      have hcase : d.queue = [] ∨ ∃ s, d.queue = [s] := by
+        match hd : d.queue with
+        | [] => exact Or.inl rfl
+        | [s] => exact Or.inr ⟨s, rfl⟩
+        | s :: s' :: rest => exact absurd hd (hne s s' rest)
       have h1 : P ({ d with queue := [] }.kp .cont (d.queue.headD 0)).1 := by
-        match hq : d.queue with
-        | [] =>
-          have : ({ d with queue := [] } : D) = { d with bpOn := d.bpOn } := by cases d; simp_all
-          rw [this]; simpa using hP.kp0c d d.bpOn h hq
-        | [s] => simpa using hP.pop d s h hq
-        | s :: s' :: rest => exact absurd hq (hne s s' rest)
+        rcases hcase with hd | ⟨s, hd⟩
+        · have e : ({ d with queue := [] } : D) = d := by cases d; simp_all
+          rw [e, hd]; exact hP.kp0c d h hd
+        · rw [hd]; exact hP.pop d s h hd
+      have w1 := D.kp_W (d := { d with queue := [] }) .cont (d.queue.headD 0) NQ_nil
+      have hlen : ({ d with queue := [] }.kp .cont (d.queue.headD 0)).1.queue.length ≤ 1 := by
+        cases hw : ({ d with queue := [] }.kp .cont (d.queue.headD 0)).2 with
+        | sigStop a => rw [D.kp_queue_sig hw]; split <;> simp
+        | _ => rw [D.kp_queue_other (by intro a h'; rw [hw] at h'; cases h')]; simp
       simp only []
       split
-      · split
-        · exact ih _ h1
-        · exact h1
-      all_goals exact h1
+      · rename_i s e
+        split
+        · exact ih _ h1 (Or.inr hlen)
+        · rename_i hs
+          refine ⟨h1, Or.inr ?_, fun s' e' => by cases e'; exact hs⟩
+          rw [e] at w1
+          obtain ⟨q0, hq0, hqq⟩ := w1
+          rcases hqq with hqq | ⟨_, hqq⟩
+          · rw [hqq]; intro x hx
+            simp only [List.mem_append, List.mem_singleton] at hx
+            rcases hx with hx | hx
+            · exact hq0 x hx
+            · rw [hx]; exact hs
+          · rw [hqq]; exact hq0
+      · rename_i e; rw [e] at w1; exact ⟨h1, Or.inr w1, by simp⟩
+      · rename_i e; rw [e] at w1; exact ⟨h1, Or.inr w1, by simp⟩
+      · rename_i n1 n2 n3
+        refine ⟨h1, Or.inr ?_, by simp⟩
+        cases hw2 : ({ d with queue := [] }.kp .cont (d.queue.headD 0)).2 with
+        | sigStop a => exact absurd hw2 (n1 a)
+        | trapBp => exact absurd hw2 n2
+        | exitEv => exact absurd hw2 n3
+        | trap => rw [hw2] at w1; exact w1
+        | trap5 => rw [hw2] at w1; exact w1
+        | unmodelled => rw [hw2] at w1; exact w1
 
-theorem D.afterStep_stable {P : D → Prop} (hP : Stable P) (d : D) (h : P d) : P d.afterStep.1 := by
-  have h1 := D.resume_stable hP (D.resFuel d) d h
+/-- at a prompt: the model has given up (out of fuel), or no quiet signal waits in the queue -/
+def Prompt (d : D) : Prop := d.dead = true ∨ NQ d.queue
+
+/-- what a command hands back -/
+def Post2 (r : D × Out) : Prop := (r.2 = .outOfFuel ∧ r.1.dead = true) ∨ NQ r.1.queue
+
+theorem Post2.prompt {r : D × Out} (h : Post2 r) : Prompt r.1 := by
+  rcases h with ⟨_, h⟩ | h
+  · exact Or.inl h
+  · exact Or.inr h
+
+theorem D.afterStep_stable {P : D → Prop} (hP : Stable P) (d : D) (h : P d) (hq : NQ d.queue) :
+    P d.afterStep.1 ∧ Post2 d.afterStep := by
+  have h1 := D.resume_stable hP (D.resFuel d) d h (Or.inl hq)
   unfold D.afterStep
   simp only []
   split
-  all_goals first
-    | exact h1
-    | exact hP.ext' h1 rfl rfl rfl
+  · rename_i e; exact ⟨h1.1, Or.inr (h1.2.1.resolve_left (by simp [e]))⟩
+  · rename_i e; exact ⟨h1.1, Or.inr (h1.2.1.resolve_left (by simp [e]))⟩
+  · rename_i s e
+    exact ⟨hP.report _ s h1.1 (h1.2.2 s e), Or.inr (h1.2.1.resolve_left (by simp [e]))⟩
+  · rename_i e; exact ⟨h1.1, Or.inr (h1.2.1.resolve_left (by simp [e]))⟩
+  · exact ⟨hP.ext' h1.1 rfl rfl rfl rfl, Or.inl ⟨rfl, rfl⟩⟩
 
-theorem D.stepOut_stable {P : D → Prop} (hP : Stable P) (d : D) (o : SRes) (h : P d) : P (D.stepOut d o).1 := by
-  cases o <;> first | exact h | exact hP.ext' h rfl rfl rfl
+theorem D.stepOut_stable {P : D → Prop} (hP : Stable P) (d : D) (o : SRes) (h : P d)
+    (hq : Post d (o = .outOfFuel)) (ho : ∀ s, o = .sig s → s ∉ quiet) :
+    P (D.stepOut d o).1 ∧ Post2 (D.stepOut d o) := by
+  cases o with
+  | sig s => exact ⟨hP.report _ s h (ho s rfl), Or.inr (hq.resolve_left (by simp))⟩
+  | outOfFuel => exact ⟨hP.ext' h rfl rfl rfl rfl, Or.inl ⟨rfl, rfl⟩⟩
+  | none => exact ⟨h, Or.inr (hq.resolve_left (by simp))⟩
+  | err => exact ⟨h, Or.inr (hq.resolve_left (by simp))⟩
+  | unmodelled => exact ⟨h, Or.inr (hq.resolve_left (by simp))⟩
 
-theorem D.contExec_stable {P : D → Prop} (hP : Stable P) (d : D) (h : P d) : P d.contExec.1 := by
-  have h1 := D.singleStep_stable hP d h
+theorem D.contExec_stable {P : D → Prop} (hP : Stable P) (d : D) (h : P d) (hq : NQ d.queue) :
+    P d.contExec.1 ∧ Post2 d.contExec := by
+  have h1 := D.singleStep_stable hP d h hq
   unfold D.contExec
   split
   · simp only []
     split
-    · exact D.afterStep_stable hP _ h1
-    · exact D.stepOut_stable hP _ _ h1
-  · exact D.afterStep_stable hP d h
+    · rename_i e
+      exact D.afterStep_stable hP _ h1.1 (h1.2.1.resolve_left (by simp [e]))
+    · exact D.stepOut_stable hP _ _ h1.1 h1.2.1 h1.2.2
+  · exact D.afterStep_stable hP d h hq
 
-theorem D.stepiExec_stable {P : D → Prop} (hP : Stable P) (d : D) (h : P d) : P d.stepiExec.1 :=
-  D.stepOut_stable hP _ _ (D.singleStep_stable hP d h)
+theorem D.stepiExec_stable {P : D → Prop} (hP : Stable P) (d : D) (h : P d) (hq : NQ d.queue) :
+    P d.stepiExec.1 ∧ Post2 d.stepiExec :=
+  have h1 := D.singleStep_stable hP d h hq
+  D.stepOut_stable hP _ _ h1.1 h1.2.1 h1.2.2
 
 theorem D.drainLoop_stable {P : D → Prop} (hP : Stable P) :
-    ∀ (n : Nat) (d : D) (acc : List Out), P d → P (D.drainLoop n d acc).1 := by
+    ∀ (n : Nat) (d : D) (acc : List Out), P d → NQ d.queue → P (D.drainLoop n d acc).1 := by
   intro n
   induction n with
-  | zero => intro d acc h; simpa [D.drainLoop] using h
+  | zero => intro d acc h _; simpa [D.drainLoop] using h
   | succ n ih =>
-    intro d acc h
-    have h1 := D.contExec_stable hP d h
+    intro d acc h hq
+    have h1 := D.contExec_stable hP d h hq
     unfold D.drainLoop
     split
     · exact h
     · simp only []
       split
-      all_goals first
-        | exact h1
-        | exact ih _ _ h1
+      · exact h1.1
+      · rename_i s e
+        exact ih _ _ h1.1 (h1.2.resolve_left (by simp [e]))
+      · rename_i e
+        exact ih _ _ h1.1 (h1.2.resolve_left (by simp [e]))
+      · exact h1.1
+
+/-- `P` at a prompt -/
+def Inv (P : D → Prop) (d : D) : Prop := P d ∧ Prompt d
 
 /-- a predicate closed under the atomic steps is preserved by every command -/
-theorem D.exec_stable {P : D → Prop} (hP : Stable P) (d : D) (c : Cmd) (h : P d) : P (d.exec c).1 := by
-  cases c with
-  | brk => simp only [D.exec]; split <;> first | exact h | exact hP.ext' h rfl rfl rfl
-  | unbrk => simp only [D.exec]; split <;> first | exact h | (split <;> first | exact h | exact hP.ext' h rfl rfl rfl)
-  | start =>
-    simp only [D.exec]
-    split
-    · exact h
-    · split
+theorem D.exec_stable {P : D → Prop} (hP : Stable P) (d : D) (c : Cmd) (h : Inv P d) : Inv P (d.exec c).1 := by
+  by_cases hd : d.dead = true
+  · -- a dead model ignores every command
+    have : (d.exec c).1 = d := by cases c <;> simp [D.exec, hd]
+    rw [this]; exact h
+  · have hq : NQ d.queue := h.2.resolve_left hd
+    cases c with
+    | brk =>
+      simp only [D.exec]; split
       · exact h
-      · exact D.contExec_stable hP _ (hP.ext' (d' := { d with started := true }) h rfl rfl rfl)
-  | cont =>
-    simp only [D.exec]
-    split
-    · exact h
-    · split
-      · exact D.contExec_stable hP _ h
+      · exact ⟨hP.ext' h.1 rfl rfl rfl rfl, Or.inr hq⟩
+    | unbrk =>
+      simp only [D.exec]; split
       · exact h
-  | stepi =>
-    simp only [D.exec]
-    split
-    · exact h
-    · split
-      · exact D.stepiExec_stable hP _ h
+      · split
+        · exact ⟨hP.ext' h.1 rfl rfl rfl rfl, Or.inr hq⟩
+        · exact h
+    | start =>
+      simp only [D.exec]; split
       · exact h
-  | send p s =>
-    simp only [D.exec]
-    split
-    · exact h
-    · split
-      · exact hP.send d p s h
+      · split
+        · exact h
+        · have := D.contExec_stable hP { d with started := true } (hP.ext' h.1 rfl rfl rfl rfl) hq
+          exact ⟨this.1, this.2.prompt⟩
+    | cont =>
+      simp only [D.exec]; split
       · exact h
-  | drain =>
-    simp only [D.exec]
-    split
-    · exact h
-    · split
-      · exact hP.ext' (D.drainLoop_stable hP 40 { d with bpOn := false } [] (hP.ext' (d' := { d with bpOn := false }) h rfl rfl rfl)) rfl rfl rfl
-      · exact hP.ext' (d := d) h rfl rfl rfl
+      · split
+        · have := D.contExec_stable hP d h.1 hq
+          exact ⟨this.1, this.2.prompt⟩
+        · exact h
+    | stepi =>
+      simp only [D.exec]; split
+      · exact h
+      · split
+        · have := D.stepiExec_stable hP d h.1 hq
+          exact ⟨this.1, this.2.prompt⟩
+        · exact h
+    | send p s =>
+      simp only [D.exec]; split
+      · exact h
+      · split
+        · rename_i hr
+          have hne : d.k.stop ≠ .exited := by
+            intro e; simp [D.running, e] at hr
+          exact ⟨hP.send d p s h.1 hne, Or.inr hq⟩
+        · exact h
+    | drain =>
+      simp only [D.exec]; split
+      · exact h
+      · split
+        · exact ⟨hP.ext' (D.drainLoop_stable hP 40 { d with bpOn := false } []
+            (hP.ext' (d' := { d with bpOn := false }) h.1 rfl rfl rfl rfl) hq) rfl rfl rfl rfl, Or.inl rfl⟩
+        · exact ⟨hP.ext' (d := d) h.1 rfl rfl rfl rfl, Or.inl rfl⟩
 
 /-- ... hence at every prompt of every history -/
-theorem D.run_stable {P : D → Prop} (hP : Stable P) : ∀ (cs : List Cmd) (d : D), P d → P (d.run cs) := by
+theorem D.run_stable {P : D → Prop} (hP : Stable P) : ∀ (cs : List Cmd) (d : D), Inv P d → Inv P (d.run cs) := by
   intro cs
   induction cs with
   | nil => intro d h; exact h
   | cons c cs ih => intro d h; exact ih _ (D.exec_stable hP d c h)
 
-theorem D.kps_stepArr_true {d : D} {m : Mode} {s : Sig} (h : d.stepArr = true) : (d.kps m s).1.stepArr = true := by
-  cases hw : (d.kp m s).2 with
-  | sigStop a => rw [D.kps_sig hw]
-  | _ => rw [D.kps_other (by simp [hw])]; simpa using h
+theorem D.init_prompt (script : List PEv) : Prompt (D.init script) := Or.inr (by simp [D.init, NQ])
 
+/-- a predicate closed under the atomic steps holds at every prompt of every history -/
+theorem D.run_holds {P : D → Prop} (hP : Stable P) (script : List PEv) (cmds : List Cmd) (h0 : P (D.init script)) :
+    P ((D.init script).run cmds) :=
+  (D.run_stable hP cmds (D.init script) ⟨h0, D.init_prompt script⟩).1
+
+/-! ### the conservation law holds as long as no signal is queued on top of another one -/
+
+theorem cleanStable : Stable (fun d => d.piled = false → Clean d) := by
+  refine ⟨?_, ?_, ?_, ?_, ?_, ?_, ?_, ?_⟩
+  · intro d d' hk hq _ hp h hf; exact Clean.ext hk hq (h (by rw [← hp]; exact hf))
+  · intro d h hq hf
+    rw [D.kp_piled_nil .cont 0 hq] at hf
+    exact Clean.kp0 .cont (h hf) hq
+  · intro d m h hm hf
+    obtain ⟨hp, hcase⟩ := D.kp_piled_false hf
+    rcases hcase with hq | hno
+    · exact Clean.kp0 m (h hp) hq
+    · exact Clean.kp0_keep m (h hp) hm hno
+  · intro d s h hq hf
+    have : ({ d with queue := [] } : D).piled = d.piled := rfl
+    rw [D.kp_piled_nil (d := { d with queue := [] }) .cont s rfl, this] at hf
+    exact Clean.inj .cont s (h hf) hq
+  · intro d q0 a h _ hq hf
+    obtain ⟨hp, _⟩ := D.kp_piled_false hf
+    have hc := h hp
+    have hl := hc.1
+    rw [hq] at hl
+    have hq0 : q0 = [] := by
+      cases q0 with
+      | nil => rfl
+      | cons x l => simp at hl
+    subst hq0
+    exact Clean.inj .step a hc (by simpa using hq)
+  · intro d s s' rest h hq hf
+    have := (h hf).1; rw [hq] at this; simp at this
+  · intro d p s h _ hf; exact Clean.send p s (h hf)
+  · intro d s h _ hf; exact Clean.ext rfl rfl (h hf)
 
 end BsVerif.Sig
